@@ -117,6 +117,8 @@ class DatasetSpec(object):
     # -- writing -------------------------------------------------------------------------
     def _vec(self, a):
         a = np.asarray(a)
+        if self.vec2d == 'row' and a.ndim == 1:
+            return a.reshape((1, -1))           # MATLAB row vectors / np.atleast_2d
         return a.reshape((-1, 1)) if (self.vec2d and a.ndim == 1) else a
 
     def _name(self, ks):
